@@ -89,7 +89,7 @@ CLAIMED = {
             "Decides the one-directional implication on branch structure and the extracted tables; helper predicates such as Schema::is_subtype and the iterator adaptors feeding the loops are taken as given. Not a proof that Valid<Schema> implies the invariants.",
             "region decision tables (MIR path enumeration per loop body), variant tables, loop-relative must-pass-through, may-derive slices", False),
     "C16": ("other",
-            "validate_schema changes the schema only through the prune (retain) and restore (insert) of built-in scalar definitions on schema.types: the 8-row decision table of the prune closure, the 3-row table of record_type_ref, coverage of all five containers of type references by a loop that records every element's inner named type on every path, the restore loop after the prune on every path, and no other mutable borrow or non-benign interior mutability of the schema / executable document.",
+            "validate_schema changes the schema only through the prune (retain) and restore (insert) of built-in scalar definitions on schema.types: the 8-row decision table of the prune closure, the 3-row table of record_type_ref, coverage of all five containers of type references by a loop that records every element's inner named type on every path, the restore loop after the prune on every path, and no other mutable borrow or non-benign interior mutability of the schema / executable document. The implemented-field type compatibility table (C29.IMPL) is shared: a validator that looks a name up in schema.types instead of comparing names rejects a field of a built-in scalar that re-validation has not restored yet.",
             "Necessary conditions of idempotence (who writes, what the bookkeeping decides, that all references are recorded); equality of the schema before and after re-validation is not decided.",
             "decision tables from MIR path enumeration, loop-relative must-pass-through, may-derive slices, who-writes and type facts", False),
     "C12": ("other",
@@ -121,7 +121,7 @@ CLAIMED = {
             "That every generated document parses and validates is not decided. arbitrary::Unstructured and petgraph::toposort are trusted.",
             "resolved-callee inventory over rustc MIR, loop-source provenance (may-derive slice), dominating-edge facts, const evaluation", False),
     "C33": ("other",
-            "Structural conditions of the generated response shape: collect_fields groups by alias-or-name, recurses into fragments with the same concrete type under a type-condition test on that concrete type, and appends what a fragment contributes to the group already collected under the same response key (never IndexMap::extend / insert, which replace it); type_condition_matches as a decision table; one concrete type per selection set feeds both field collection and __typename; nulls only under a nullability test; the count and pick passes over an interface's implementers filter identically; union members / enum values are picked from the type's own collection; a field whose declared type has d list levels is generated with exactly d array levels on every generator path (d = 0..3, abstract evaluation; the flat generation of nested lists was found by this clause and repaired).",
+            "Structural conditions of the generated response shape: collect_fields groups by alias-or-name, recurses into fragments with the same concrete type under a type-condition test on that concrete type, and appends what a fragment contributes to the group already collected under the same response key (never IndexMap::extend / insert, which replace it); type_condition_matches as a decision table; one concrete type per selection set feeds both field collection and __typename; nulls only under a nullability test; the count and pick passes over an interface's implementers filter identically; union members / enum values are picked from the type's own collection; a field whose declared type has d list levels is generated with exactly d array levels on every generator path (d = 0..3, abstract evaluation; the flat generation of nested lists was found by this clause and repaired). The __typename meta field is recognised by the field's name, not by its response key, in both generator functions.",
             "The shape of generated data and re-execution over it are not decided. The list-nesting clause is decided by abstract evaluation for list depths 0..3 (the flat-list defect it found is repaired, see known_findings.json 'fixed').",
             "decision tables and dominating-edge facts over rustc MIR, typed-HIR guard shape, sibling closure comparison, abstract evaluation of the generator over list depths", False),
     "C08": ("other",
